@@ -124,8 +124,10 @@ def _classify(case):
             if any(c == '__pycache__' or c in ignored for c in below):
                 continue
             possibly = True
-            if all(_ident(c) and c not in NEVER_ENTERED_BY_DISCOVERY for c in below):
-                clearly = True
+            # every directory below a search path is searched by the clean-up, whether or not test discovery would enter
+            # it (non-identifier names, node_modules, .git when not ignored): the statement excepts __pycache__ and the
+            # ignored directories only
+            clearly = True
         if possibly:
             may.add(f)
         if clearly and not bare:
